@@ -667,9 +667,7 @@ fn check_maha(out: &mut Out, cov: Option<&[Vec<f64>]>, data: Option<&[Vec<f64>]>
         (Some(c), _) => (c.to_vec(), None),
         (_, Some(d)) => {
             let (c, mu) = ref_cov(d);
-            // conditioning of the centring step: |mu| / sd per column
-            let k: Vec<f64> = (0..n).map(|i| 1.0 + mu[i].abs() / c[i][i].sqrt().max(1e-300)).collect();
-            (c, Some(k))
+            (c, Some(mu))
         }
         _ => unreachable!(),
     };
@@ -701,7 +699,12 @@ fn check_maha(out: &mut Out, cov: Option<&[Vec<f64>]>, data: Option<&[Vec<f64>]>
     for i in 0..n {
         for j in 0..n {
             let al = match (&cov_scale, data) {
-                (Some(k), Some(d)) => 8.0 * (d.len() as f64 + 4.0) * u * (sigma_ref[i][i] * sigma_ref[j][j]).sqrt() * k[i] * k[j],
+                // two-pass definition: (m+4) roundings relative to sqrt(c_ii c_jj); the error of the computed
+                // mean enters only in second order (the centred values sum to zero): m^2 u^2 |mu_i mu_j|
+                (Some(mu), Some(d)) => {
+                    let mf = d.len() as f64;
+                    8.0 * (mf + 4.0) * u * (sigma_ref[i][i] * sigma_ref[j][j]).sqrt() + 8.0 * mf * mf * u * u * (mu[i] * mu[j]).abs()
+                }
                 _ => 0.0,
             };
             if al > 0.0 {
@@ -901,7 +904,9 @@ fn gen_data(rng: &mut Rng, m: usize, n: usize, cond: f64, f32m: bool) -> Vec<Vec
     // rows = mean + A * g with A = Q diag(sqrt(lambda)): population covariance has condition `cond`
     let q = random_orthogonal(rng, n);
     let lam: Vec<f64> = (0..n).map(|i| if i == 0 { 1.0 } else { cond.powf(rng.unit()) }).collect();
-    let mean: Vec<f64> = (0..n).map(|_| rng.uniform(-3.0, 3.0)).collect();
+    // a quarter of the data sets sit far from the origin (|mean| up to 1e6 sd; single precision 1e2)
+    let off = if rng.below(4) == 0 { 10f64.powf(rng.uniform(0.0, if f32m { 2.0 } else { 6.0 })) } else { 1.0 };
+    let mean: Vec<f64> = (0..n).map(|_| rng.uniform(-3.0, 3.0) * off).collect();
     (0..m)
         .map(|_| {
             let g: Vec<f64> = (0..n).map(|k| rng.normal() * lam[k].sqrt()).collect();
